@@ -5,6 +5,8 @@
 //! `nw k` new, `tk j k` std::mem::take); the answer is the result of the LAST step (the earlier ones are the history).
 //! ops:   `u n` | `m a b` | `mi a b res` | `f v n` | `fi v n rx ry` | `inv xs ys` | `ii xs ys res` | `fm a b n` | `fmx a b n` | `fmi a b n res`
 //!        | `fx rpn n res v0 [v1 …]` (forward transforms, a per-bin expression built from the operators of `Complex<F>`, `fft_inv_into`)
+//!        `al<o>` in front of `m` / `mi` / `fm` / `fmx` / `fmi`: the two operands are passed as slices of ONE buffer, `b` starting
+//!        `o` entries after `a` (same slice, prefix, suffix, overlapping); expected = the answer for separate copies
 //! raw:   i64 vectors (`[..]`, digest above 48 entries), complex vectors as bit patterns
 //! view:  `<vec> fresh=<same|diff> oracle=<exact|wrong>` — `fresh` repeats the last call on a brand-new
 //!        object and compares bit for bit; `oracle` is an exact i128 schoolbook convolution (for `fx`: exact arithmetic
@@ -90,7 +92,8 @@ enum Op {
 /// A step of a case: a call on object `k` of the pool, or a pool operation.
 #[derive(Clone, Debug)]
 enum Step {
-    Call(usize, Op),
+    /// object, call, `al<o>`: pass the two operands as slices of ONE buffer, `o` = start of `b` minus start of `a`
+    Call(usize, Op, Option<i64>),
     Clone(usize, usize),
     CloneFrom(usize, usize),
     Default(usize),
@@ -224,9 +227,50 @@ fn parse_step(s: &str) -> Option<Step> {
         ["df", k] => Some(Step::Default(parse_idx(k)?)),
         ["nw", k] => Some(Step::Fresh(parse_idx(k)?)),
         ["tk", j, k] => Some(Step::Take(parse_idx(j)?, parse_idx(k)?)),
-        [first, rest @ ..] if first.starts_with('@') => Some(Step::Call(parse_idx(&first[1..])?, parse_op_tokens(rest)?)),
-        _ => Some(Step::Call(0, parse_op_tokens(&t)?)),
+        [first, rest @ ..] if first.starts_with('@') => {
+            let (op, al) = parse_call(rest)?;
+            Some(Step::Call(parse_idx(&first[1..])?, op, al))
+        }
+        _ => {
+            let (op, al) = parse_call(&t)?;
+            Some(Step::Call(0, op, al))
+        }
     }
+}
+
+/// `al<o> op ...` (two-operand calls only): the operands are passed as aliases of one buffer, see `alias_layout`.
+fn parse_call(t: &[&str]) -> Option<(Op, Option<i64>)> {
+    if let [fl, rest @ ..] = t {
+        if let Some(o) = fl.strip_prefix("al").and_then(|r| r.parse::<i64>().ok()) {
+            let op = parse_op_tokens(rest)?;
+            return match op {
+                Op::M(..) | Op::Mi(..) | Op::Fm(..) | Op::Fmx(..) | Op::Fmi(..) => Some((op, Some(o))),
+                _ => None,
+            };
+        }
+    }
+    Some((parse_op_tokens(t)?, None))
+}
+
+/// ONE buffer that holds both operands, `b` starting `o` entries after `a` (before, for negative `o`): `(buf, start of a,
+/// start of b)`.  `None` when the contents disagree on the overlap (the call is then made with separate vectors).
+/// `o = 0` and equal lengths: the very same slice; `o = 0`: one operand is a prefix of the other (same start address);
+/// `o = |a| - |b|`: suffix; `0 < o < |a|`: sub-slice / overlapping; `o >= |a|`: disjoint parts of one allocation.
+fn alias_layout(a: &[i32], b: &[i32], o: i64) -> Option<(Vec<i32>, usize, usize)> {
+    if o.unsigned_abs() > (1 << 20) {
+        return None;
+    }
+    let (sa, sb) = if o >= 0 { (0usize, o as usize) } else { ((-o) as usize, 0usize) };
+    let mut buf = vec![0i32; (sa + a.len()).max(sb + b.len())];
+    buf[sa..sa + a.len()].copy_from_slice(a);
+    for (i, &y) in b.iter().enumerate() {
+        let p = sb + i;
+        if p >= sa && p < sa + a.len() && buf[p] != y {
+            return None;
+        }
+        buf[p] = y;
+    }
+    Some((buf, sa, sb))
 }
 
 /// sizes above this are not requested from either side (memory)
@@ -375,9 +419,53 @@ fn eval_bin<F: HF>(toks: &[Tok], leaves: &[Vec<Complex<F>>], p: usize) -> Comple
     st.pop().unwrap()
 }
 
-fn call<F: HF>(fft: &mut FFT<F>, op: &Op) -> Out {
+fn call<F: HF>(fft: &mut FFT<F>, op: &Op, alias: Option<i64>) -> Out {
     if !valid(op) {
         return Out::Invalid;
+    }
+    // aliased operands: both slices are views into one buffer (where the contents allow it)
+    let lay = match (op, alias) {
+        (Op::M(a, b), Some(o)) | (Op::Mi(a, b, _), Some(o)) | (Op::Fm(a, b, _), Some(o)) | (Op::Fmx(a, b, _), Some(o)) | (Op::Fmi(a, b, _, _), Some(o)) => {
+            alias_layout(a, b, o).map(|(buf, sa, sb)| (buf, sa, a.len(), sb, b.len()))
+        }
+        _ => None,
+    };
+    if let Some((buf, sa, la, sb, lb)) = &lay {
+        let a: &[i32] = &buf[*sa..*sa + *la];
+        let b: &[i32] = &buf[*sb..*sb + *lb];
+        let r = catch(|| match op {
+            Op::M(..) => Out::IVec(fft.multiply(a, b)),
+            Op::Mi(_, _, res) => {
+                let mut res = res.clone();
+                fft.multiply_into(a, b, &mut res);
+                Out::IVec(res)
+            }
+            Op::Fm(_, _, n) => {
+                let fa = fft.fft(a, *n);
+                let fb = fft.fft(b, *n);
+                let prod: Vec<Complex<F>> = fa.iter().zip(fb.iter()).map(|(x, y)| *x * *y).collect();
+                Out::IVec(fft.fft_inv(&prod))
+            }
+            Op::Fmx(_, _, n) => {
+                let fa = fft.fft(a, *n);
+                let fb = fft.fft(b, *n);
+                let prod: Vec<Complex<F>> = fa.iter().zip(fb.iter()).map(|(x, y)| *x * *y).collect();
+                Out::IVec(FFT::<F>::new().fft_inv(&prod))
+            }
+            Op::Fmi(_, _, n, res) => {
+                let fa = fft.fft(a, *n);
+                let fb = fft.fft(b, *n);
+                let prod: Vec<Complex<F>> = fa.iter().zip(fb.iter()).map(|(x, y)| *x * *y).collect();
+                let mut res = res.clone();
+                fft.fft_inv_into(&prod, &mut res);
+                Out::IVec(res)
+            }
+            _ => Out::Invalid,
+        });
+        return match r {
+            Ok(o) => o,
+            Err(e) => Out::Panic(e),
+        };
     }
     let r = catch(|| match op {
         Op::U(n) => {
@@ -822,8 +910,8 @@ fn run_steps<F: HF>(steps: &[Step], ctor: &str) -> String {
     let mut pool: Vec<FFT<F>> = vec![obj0, FFT::new(), FFT::new(), FFT::new()];
     for st in hist {
         match st {
-            Step::Call(k, op) => {
-                let _ = call(&mut pool[*k], op);
+            Step::Call(k, op, al) => {
+                let _ = call(&mut pool[*k], op, *al);
             }
             Step::Clone(j, k) => {
                 let c = pool[*j].clone();
@@ -849,20 +937,22 @@ fn run_steps<F: HF>(steps: &[Step], ctor: &str) -> String {
             }
         }
     }
-    let (k, last) = match last {
-        Step::Call(k, op) => (*k, op),
+    let (k, last, al) = match last {
+        Step::Call(k, op, al) => (*k, op, *al),
         _ => return out2("ok", "ok"),
     };
     let used = if ctor == "histclone" {
         let mut c = pool[k].clone();
-        call(&mut c, last)
+        call(&mut c, last, al)
     } else {
-        call(&mut pool[k], last)
+        call(&mut pool[k], last, al)
     };
+    // the brand-new object gets SEPARATE copies of the operands: `fresh=same` then also says that the answer does not
+    // depend on where the operands live
     let mut fresh_obj = FFT::<F>::new();
-    let fresh = call(&mut fresh_obj, last);
+    let fresh = call(&mut fresh_obj, last, None);
     let base = match sibling(last) {
-        Some(s) => call(&mut FFT::<F>::new(), &s),
+        Some(s) => call(&mut FFT::<F>::new(), &s, None),
         None => Out::Unit,
     };
     let in_dom = value_in_domain(last, f32_);
@@ -1503,6 +1593,84 @@ impl<'a> Gen<'a> {
         }
     }
 
+    /// Stream `aliased` (both build profiles): the two operands of multiply / multiply_into / forward-pointwise-inverse are
+    /// SLICES OF ONE BUFFER (`al<o>` in front of the call, `o` = start of `b` minus start of `a`): the very same slice,
+    /// one operand a prefix of the other (same start address, different lengths), a suffix, an inner sub-slice, slices
+    /// that overlap partly, neighbouring parts of one allocation - both operand orders, shapes that take the single
+    /// transform and shapes that take the block loop, every history / constructor kind in turn.  Expected: what the call
+    /// returns for separate copies (the specification knows no addresses).
+    fn aliased(&mut self, thorough: bool, lite: bool) {
+        let mut shapes: Vec<(usize, usize)> = vec![];
+        for l0 in 1..=6usize {
+            for l1 in 1..=l0 {
+                shapes.push((l0, l1));
+            }
+        }
+        shapes.extend_from_slice(&[(8, 3), (9, 9), (13, 4), (16, 16), (17, 5), (31, 7), (33, 32), (40, 13), (64, 64), (100, 33), (129, 1), (200, 64)]);
+        if !lite {
+            shapes.extend_from_slice(&[(257, 100), (512, 512), (1000, 7)]);
+        }
+        if thorough {
+            shapes.extend_from_slice(&[(1024, 1024), (2048, 300), (4096, 4096), (8192, 16), (5000, 4999), (65536, 3)]);
+        }
+        let pats = ["mixed", "allmax", "ramp", "pos", "alt", "mixed", "allneg"];
+        let mut idx = 0usize;
+        for prec in ["f64", "f32"] {
+            for &(l0, l1) in &shapes {
+                let m = env_max(prec, l0, l1);
+                if m == 0 {
+                    continue;
+                }
+                // start of the short slice inside the buffer of the long one
+                let mut offs: Vec<(usize, &str)> = vec![(0, if l0 == l1 { "same-slice" } else { "prefix(same-start)" })];
+                if l0 > l1 {
+                    offs.push((l0 - l1, "suffix"));
+                    if l0 - l1 >= 2 {
+                        offs.push(((l0 - l1) / 2, "inner"));
+                    }
+                }
+                if l1 >= 2 {
+                    offs.push((l0 - l1 / 2, "overlap"));
+                }
+                offs.push((l0, "adjacent"));
+                for (o, kind) in offs {
+                    for swap in [false, true] {
+                        if swap && o == 0 && l0 == l1 {
+                            continue;
+                        }
+                        idx += 1;
+                        let buf = coeffs(&mut self.rng, l0.max(o + l1), m, pats[idx % pats.len()]);
+                        let long = &buf[..l0];
+                        let short = &buf[o..o + l1];
+                        let (a, b, al) = if swap { (short, long, -(o as i64)) } else { (long, short, o as i64) };
+                        let mut opks = vec![["m", "mi"][(idx / 2) % 2]];
+                        if idx % 3 == 0 {
+                            opks.push(["fm", "fmx", "fmi"][(idx / 3) % 3]);
+                        }
+                        for opk in opks {
+                            let (last, n) = self.measured(prec, opk, a, b);
+                            let hist = HIST[(idx / 2) % HIST.len()];
+                            let mut ops = self.history(prec, hist, n);
+                            ops.push(format!("al{} {}", al, last));
+                            let ctor = CTORS[(idx / 5) % CTORS.len()];
+                            self.stats.bump("stream:aliased");
+                            self.stats.bump(&format!("aliased:{}", kind));
+                            self.stats.bump(&format!("aliased:op:{}", opk));
+                            self.stats.bump(if swap { "aliased:short-first" } else { "aliased:long-first" });
+                            if (opk == "m" || opk == "mi") && l0 > 2 * l1 {
+                                self.stats.bump("aliased:block-loop");
+                            }
+                            self.stats.bump(&format!("prec:{}", prec));
+                            self.stats.bump(&format!("ctor:{}", ctor));
+                            let ops = if idx % 6 == 0 { self.poolify(ops) } else { ops };
+                            (self.emit)(format!("fft {} {} ; {}", prec, ctor, ops.join(" ; ")));
+                        }
+                    }
+                }
+            }
+        }
+    }
+
     /// operand vectors of a spectral case: operands of the given lengths, magnitude `m`
     fn fx_operands(&mut self, lens: &[usize], m: i64, monomial_last: bool, n: usize) -> Vec<Vec<i32>> {
         let mut vs = vec![];
@@ -1832,6 +2000,7 @@ fn gen(args: &Args, emit: &mut dyn FnMut(String), stats: &mut Stats) {
     // (iv-d) degenerate sizes for every entry point; the operators of Complex<F> on spectra
     g.degenerate(thorough);
     g.dest_sweep(thorough);
+    g.aliased(thorough, lite);
     g.spectral(thorough, lite);
 
     // (v) out-of-domain (spec `any`): asserts of update_n / non-power-of-two sizes, coefficients far outside the envelope
